@@ -40,6 +40,9 @@ def class_source(shape: dict) -> str:
 
     base_fields = [f for f in shape["fields"] if f["owner"] == "base" or not shape["hasSub"]]
     sub_fields = [f for f in shape["fields"] if f["owner"] == "sub" and shape["hasSub"]]
+    mixin_fields = []
+    if shape.get("mixin"):
+        mixin_fields, sub_fields = [f for f in sub_fields if f["name"] == "m"], [f for f in sub_fields if f["name"] != "m"]
     top = "Base" if shape["hasSub"] else "K"
     if shape["deco"]["base"]:
         lines.append("@with_fields_set")
@@ -47,11 +50,13 @@ def class_source(shape: dict) -> str:
     if any(f["kind"] == "initvar" for f in base_fields):
         lines.append("    def __post_init__(self, " + ", ".join(f["name"] for f in base_fields if f["kind"] == "initvar") + "):")
         lines.append("        pass")
+    if mixin_fields:
+        lines += ["", "@dataclass", "class Mixin:"] + [fld(f) for f in mixin_fields]
     if shape["hasSub"]:
         lines.append("")
         if shape["deco"]["sub"]:
             lines.append("@with_fields_set")
-        lines += ["@dataclass", "class K(Base):"] + ([fld(f) for f in sub_fields] or ["    pass"])
+        lines += ["@dataclass", f"class K({'Mixin, ' if mixin_fields else ''}Base):"] + ([fld(f) for f in sub_fields] or ["    pass"])
     return "\n".join(lines) + "\n"
 
 
